@@ -27,17 +27,23 @@ RULE = ("cases are specification objects rendered to wikitext: (S1) every grid s
         "{one cell per line, ||/!! separated} x {caption, none} with sampled contents; (S2) every ordered pair of the 23 cell-content "
         "classes in adjacent cells x separator layout x header/data x cell attributes; (S3) every paired tag of ALLOWED_HTML_TAGS x "
         "0-3 attributes x 3 quoting styles x content classes x {top level, inside each permitted parent}; (S4) every sequence of "
-        "argument kinds {empty,text,named,template,link,blank-padded} up to length 3 (thorough 5) for templates and links; plus "
+        "argument kinds {empty,text,named,template,link,blank-padded} up to length 3 (thorough 5) for templates and links; (S5) every "
+        "external-link protocol the package declares x {bare, label, label with markup} x {top level, table cell}; (S6) every paired tag x "
+        "1-3 attributes x quoting style x {newline, tab} as the white space inside the start tag; plus "
         "seeded random tables (mixed line layouts, row/table/caption attributes, omitted first row marker), elements, links, "
-        "external links and template calls with nested arguments.  distinct = distinct rendered text; non-trivial = table with "
+        "external links (labels with inline HTML / templates), template calls, parser-function calls {{name:..}} and template-argument "
+        "references {{{..}}} with nested arguments, call arguments containing '!!', a line starting with '!' or a '----' line.  distinct = distinct rendered text; non-trivial = table with "
         ">=2 cells or an attribute / element with an attribute, a parent or non-text content / call with >=1 argument")
 ASSUMPTIONS = [
     "cell and caption content is compared modulo blanks at both ends (the source line end belongs to the layout, not the content)",
     "generated constructs are separated so that no token arises by juxtaposition (no word character right after ]], one bold/italic run per line, no ] before ]]); "
-    "content never starts with - + } or a list marker and never contains || or !!",
-    "inside template arguments only text, templates, template arguments, links and external links are generated (bold/italic/HTML are deliberately kept as text there by the parser)",
+    "content never starts with - + } or a list marker; '!!', a line starting with '!' and a '----' line are written only inside the argument of a call or link "
+    "(where they are part of that argument), never bare in a cell",
+    "inside call arguments only text, templates, parser-function calls, template arguments, links and external links are generated (bold/italic/HTML are deliberately kept as text there by the parser)",
     "attribute names outside [-a-zA-Z0-9:] (URL-safe _ and .) and URLs ending in . , ! ? are generated as separately tagged input classes",
-    "empty attribute values are written with double quotes only ('' is the italic token)",
+    "an empty attribute value in single quotes (a='') outside an HTML tag, protocols other than http(s) and //, white space other than one blank "
+    "inside a start tag are separately tagged input classes; the minimiser never introduces a tagged class a witness did not have",
+    "bracketed external links are written on one line; leading blanks before table markers and list-prefixed tables (:{|) are not generated (not part of the statement)",
     "per-case CPU budget 20 s",
 ]
 WALL = {"quick": 900, "thorough": 5400}
@@ -56,7 +62,16 @@ def floors(tier):
          "counters.gen.table": 1000, "counters.gen.html": 1000, "counters.gen.template": 500, "counters.gen.link": 500,
          "counters.gen.extlink": 300, "counters.table.caption": 100, "counters.table.hdr-sep=||": 50,
          "counters.table.no-first-marker": 50, "counters.table.layout.mixed": 50,
-         "anchors.core.Wtp._encode": 1000, "nontrivial": 10000}
+         "anchors.core.Wtp._encode": 1000, "nontrivial": 10000,
+         # separately tagged input classes must actually have been written
+         "counters.cls.cell.parser-function-call": 500, "counters.cls.cell.template-argument-ref": 300,
+         "counters.cls.cell.call-arg-has-!!": 100, "counters.cls.cell.call-arg-line-start-!": 50,
+         "counters.cls.cell.call-arg-rule-line": 20, "counters.cls.top.call-arg-rule-line": 20,
+         "counters.cls.tag-attr-sep.newline": 200, "counters.cls.tag-attr-sep.tab": 200,
+         "counters.cls.extlink-label-with-html": 30, "counters.cls.extlink-label-with-template": 20,
+         "counters.cls.attr-empty-single-quoted.table": 10, "counters.cls.attr-empty-single-quoted.row": 10,
+         "counters.cls.attr-empty-single-quoted.cell": 10, "counters.gen.parserfn": 100,
+         "sets.url_schemes": len(G.url_starts()), "sets.parser_functions": len(G.PFUNCS)}
     for a in ANCH:
         f["anchors.parser." + a] = 100
     return f
@@ -121,7 +136,7 @@ def _walk_content(obs, c):
         if isinstance(x, str):
             continue
         k = x[0]
-        if k in ("T", "A", "L", "U"):
+        if k in ("T", "A", "L", "U", "P"):
             obs.check("arg-lists-compared")
             for a in x[1]:
                 _walk_content(obs, a)
@@ -151,8 +166,30 @@ def stats(obs, exp):
 
 X = [["x", "x"]]
 PROBES = [[["x", "a=1"]], [["x", "a!b"]], [["x", "a:b"]], [["x", "1"]], [["x", "a b"]]]
-ATOMIC = [X] + PROBES
-UPROBES = ("http://a.org/b.", "http://a.org", "//a.org/b", "https://a.org/b")
+# texts that are only ever written inside the argument of a call / link (bare in a header cell "!!" is the
+# separator, a "----" line is a rule): tried, and kept, only in argument position
+APROBES = [[["x", "a!!b"]], [["x", "a\n!b"]], [["x", "a\n----\nb"]]]
+ATOMIC = [X] + PROBES + APROBES
+UPROBES = ("http://a.org/b.", "http://a.org", "//a.org/b", "https://a.org/b", "ftp://a.org/b")
+
+
+def arg_only(items):
+    """content that may not be moved out of argument position: a text (not itself inside the argument of a
+    nested call / link) with a header-cell token or a line break"""
+    for it in items:
+        if it[0] == "x":
+            if "!!" in it[1] or "\n" in it[1]:
+                return True
+        elif it[0] in ("B", "I"):
+            if arg_only(it[1]):
+                return True
+        elif it[0] == "H":
+            if arg_only(it[3] or []):
+                return True
+        elif it[0] == "U":
+            if it[2] is not None and arg_only(it[2]):
+                return True
+    return False
 
 
 def shrink_attrs(at):
@@ -178,33 +215,34 @@ def shrink_attrs(at):
             yield at[:i] + [alt] + at[i + 1:]
 
 
-def shrink_content(items):
-    """alternatives (lists of items) for a content list, biggest cuts first"""
+def shrink_content(items, inarg=False):
+    """alternatives (lists of items) for a content list, biggest cuts first; inarg = the content is an
+    argument of a call / link"""
     if items in ATOMIC or not items:
         if items != X:
             yield X
         return
     yield X
-    for p in PROBES:
+    for p in PROBES + (APROBES if inarg else []):
         yield p
     yield []
     if len(items) > 1:
         for i in range(len(items)):
             yield items[:i] + items[i + 1:]
     for i, it in enumerate(items):
-        for alt in shrink_item(it):
+        for alt in shrink_item(it, inarg):
             yield items[:i] + alt + items[i + 1:]
 
 
-def shrink_item(it):
+def shrink_item(it, inarg=False):
     """alternatives (each a list of items to splice in) for one item"""
     k = it[0]
     if k == "x":
         if it[1] != "x":
             yield [["x", "x"]]
-            if [it] in PROBES:
+            if [it] in PROBES + APROBES:
                 return
-            for p in PROBES:
+            for p in PROBES + (APROBES if inarg else []):
                 yield p
             s = it[1]
             if s != s.strip() and s.strip():
@@ -214,7 +252,7 @@ def shrink_item(it):
         name, args = it[1], it[2]
         for a in args:          # unwrap: the argument content without the call around it
             c = a[2] if a[0] == "n" else a[1]
-            if c and c != X:
+            if c and c != X and (inarg or not arg_only(c)):
                 yield c
         if name != [["x", "zq0"]]:
             yield [["T", [["x", "zq0"]], args]]
@@ -225,21 +263,39 @@ def shrink_item(it):
                 yield [["T", name, args[:i] + [["p", a[2]]] + args[i + 1:]]]
                 if a[1] != "k":
                     yield [["T", name, args[:i] + [["n", "k", a[2]]] + args[i + 1:]]]
-                for alt in shrink_content(a[2]):
+                for alt in shrink_content(a[2], True):
                     yield [["T", name, args[:i] + [["n", a[1], alt]] + args[i + 1:]]]
             else:
-                for alt in shrink_content(a[1]):
+                for alt in shrink_content(a[1], True):
                     yield [["T", name, args[:i] + [["p", alt]] + args[i + 1:]]]
+        return
+    if k == "P":
+        fn, args = it[1], it[2]
+        for a in args:
+            if a and a != X and (inarg or not arg_only(a)):
+                yield a
+        yield [["T", [["x", "zq0"]], [["p", a] for a in args]]]      # the same arguments in an ordinary template call
+        if fn != "lc":
+            yield [["P", "lc", args]]
+        if len(args) > 1:
+            for i in range(len(args)):
+                yield [["P", fn, args[:i] + args[i + 1:]]]
+        for i, a in enumerate(args):
+            for alt in shrink_content(a, True):
+                yield [["P", fn, args[:i] + [alt] + args[i + 1:]]]
         return
     if k in ("A", "L"):
         args = it[1]
         for a in args[1:]:
-            if a and a != X:
+            if a and a != X and (inarg or not arg_only(a)):
                 yield a
+        if len(args) > 1:       # the same arguments in an ordinary template call, then in a parser-function call
+            yield [["T", [["x", "zq0"]], [["p", a] for a in args[1:]]]]
+            yield [["P", "lc", args[1:]]]
         for i in range(1, len(args)):
             yield [[k, args[:i] + args[i + 1:]]]
         for i, a in enumerate(args):
-            for alt in shrink_content(a):
+            for alt in shrink_content(a, i > 0):
                 if i == 0 and not alt:
                     continue
                 yield [[k, args[:i] + [alt] + args[i + 1:]]]
@@ -254,34 +310,41 @@ def shrink_item(it):
             if it[2] != X:
                 yield it[2]
             yield [["U", it[1], None]]
-            for alt in shrink_content(it[2]):
+            for alt in shrink_content(it[2], inarg):
                 if alt:
                     yield [["U", it[1], alt]]
         return
     if k in ("B", "I"):
         yield it[1]
-        for alt in shrink_content(it[1]):
+        for alt in shrink_content(it[1], inarg):
             if alt:
                 yield [[k, alt]]
         return
     if k == "H":
         tag, at, content = it[1], it[2], it[3]
         endws = it[4] if len(it) > 4 else ""
+        sep = it[5] if len(it) > 5 else " "
         if content is not None:
             yield content
+        if sep != " ":
+            yield [["H", tag, at, content, endws]]
+            if sep not in ("\n", "\t"):
+                yield [["H", tag, at, content, endws, "\n"]]
         if endws and not (content is None and endws == " /" and at and at[-1][2] == ""):
-            yield [["H", tag, at, content, ""]]
+            yield [["H", tag, at, content, "", sep]]
+        if content is None:
+            yield [["H", "span", at, [["x", "x"]], "", sep]]
         if content is None and tag.lower() != "br":
-            yield [["H", "br", at, content, endws]]
+            yield [["H", "br", at, content, endws, sep]]
         if tag != tag.lower():
-            yield [["H", tag.lower(), at, content, endws]]
+            yield [["H", tag.lower(), at, content, endws, sep]]
         if tag.lower() != "span" and content is not None:
-            yield [["H", "span", at, content, endws]]
+            yield [["H", "span", at, content, endws, sep]]
         for alt in shrink_attrs(at):
-            yield [["H", tag, alt, content, endws]]
+            yield [["H", tag, alt, content, endws, sep]]
         if content is not None:
-            for alt in shrink_content(content):
-                yield [["H", tag, at, alt, endws]]
+            for alt in shrink_content(content, inarg):
+                yield [["H", tag, at, alt, endws, sep]]
         return
 
 
@@ -329,6 +392,25 @@ def shrink_table(sp):
             if key == "cap":
                 s["capattr"] = []
             yield s
+    if not sp["tattr"]:         # the same attribute list on the table itself (canonical place)
+        for i, r in enumerate(rows):
+            if r["attr"]:
+                s = cp()
+                s["tattr"], s["rows"][i]["attr"] = r["attr"], []
+                yield s
+            for j, c in enumerate(r["cells"]):
+                if c["attr"]:
+                    s = cp()
+                    s["tattr"], s["rows"][i]["cells"][j]["attr"] = c["attr"], []
+                    yield s
+        if sp.get("capattr"):
+            s = cp()
+            s["tattr"], s["capattr"] = sp["capattr"], []
+            yield s
+    if sp.get("capattr") and not rows[0]["cells"][0]["attr"] and rows[0]["cells"][0]["content"]:
+        s = cp()        # ... or on the first cell (attributes in front of a "|" inside the line)
+        s["rows"][0]["cells"][0]["attr"], s["capattr"] = sp["capattr"], []
+        yield s
     for i, r in enumerate(rows):
         if r["attr"]:
             s = cp()
@@ -404,12 +486,178 @@ def shrink_inline(sp):
             yield {"kind": "inline", "focus": sp.get("focus"), "items": alt}
 
 
-def minimise(run, sp, rule, budget=600):
-    """greedy descent: take the first alternative on which the same clause still fails"""
-    # every alternative is a step towards a canonical form (drop / replace by the canonical atom), no
-    # alternative undoes another one, so the descent terminates; the budget is a safety net
+WORDCH = "_"
+_NEST = {}
+
+
+def nesting_ok(parent, child):
+    """may the generator write <child> directly inside <parent>?  (a permitted parent from the tag table,
+    or a phrasing element inside an element that accepts phrasing content)"""
+    key = (parent, child)
+    if key not in _NEST:
+        T = G.tag_table()
+        ok = False
+        if parent in T and child in T:
+            ok = parent in G.parents_of(child) or (
+                ("phrasing" in T[child].get("parents", []) or "*" in T[child].get("parents", [])) and G.accepts_phrasing(parent))
+        _NEST[key] = ok
+    return _NEST[key]
+
+
+def _valid_content(items, in_call, top):
+    """is this content inside the generator's domain (see ASSUMPTIONS)?  in_call: inside an argument of a
+    template / parser function / template-argument reference; top: not an argument of anything"""
+    prev = None
+    for it in items:
+        k = it[0]
+        if k == "x":
+            s = it[1]
+            if top and ("!!" in s or "||" in s or "\n" in s):
+                return False
+            if prev is not None and prev[0] == "L" and s[:1] and (s[:1].isalnum() or s[:1] in WORDCH or not s[:1].isascii()):
+                return False
+            if prev is not None and prev[0] in ("B", "I") and s.startswith("'"):
+                return False
+        else:
+            if prev is not None and prev[0] in ("B", "I") and k in ("B", "I"):
+                return False
+            if in_call and k in ("B", "I", "H"):
+                return False
+            if k == "T":
+                if not it[1] or not _valid_content(it[1], True, False):
+                    return False
+                for a in it[2]:
+                    if not _valid_content(a[2] if a[0] == "n" else a[1], True, False):
+                        return False
+            elif k == "P":
+                if not it[2] or any(not _valid_content(a, True, False) for a in it[2]):
+                    return False
+            elif k == "A":
+                if not it[1] or not it[1][0] or any(not _valid_content(a, True, False) for a in it[1]):
+                    return False
+            elif k == "L":
+                args = it[1]
+                if not args or not args[0]:
+                    return False
+                if len(args) > 1 and not M.r_content(args[-1]).strip():
+                    return False
+                for i, a in enumerate(args):
+                    if any(x[0] == "U" for x in a) or not _valid_content(a, in_call, False):
+                        return False
+            elif k == "U":
+                if it[2] is not None:
+                    if not it[2] or not _valid_content(it[2], in_call, top):
+                        return False
+                    if it[2][0][0] == "x" and it[2][0][1][:1].isspace():
+                        return False        # the blank after the URL is the separator, a second one is not generated
+                    if any(x[0] == "H" and len(x) > 5 and "\n" in x[5] for x in it[2]):
+                        return False        # a bracketed external link is written on one line
+            elif k in ("B", "I"):
+                if not it[1] or not _valid_content(it[1], in_call, top):
+                    return False
+            elif k == "H":
+                if it[3] is not None:
+                    if not _valid_content(it[3], in_call, top):
+                        return False
+                    if any(c[0] == "H" and not nesting_ok(it[1].lower(), c[1].lower()) for c in it[3]):
+                        return False
+        prev = it
+    return True
+
+
+def valid(sp):
+    if sp["kind"] != "table":
+        its = sp["items"]
+        if not its or (its[0][0] == "x" and (its[0][1][:1].isspace() or its[0][1][:1] in "-*#:;={|!")):
+            return False        # a first line starting with a blank / list marker / rule is a block construct
+        return _valid_content(its, False, True)
+    if sp["cap"] is not None and not _valid_content(sp["cap"], False, True):
+        return False
+    for r in sp["rows"]:
+        for c in r["cells"]:
+            if not _valid_content(c["content"], False, True):
+                return False
+            if c["content"] and c["content"][0][0] == "x" and c["content"][0][1][:1] in "-+}*#:;!|":
+                return False
+            if not c["content"] and c["attr"] and c["pad"] != " ":
+                return False
+    return True
+
+
+def _haz_attrs(at, h, where):
+    for a in at:
+        if a[2] == "'" and a[1] == "" and where != "tag":
+            h.add("attr-empty-single-quoted")
+        if any(not (ch.isascii() and (ch.isalnum() or ch in "-:")) for ch in a[0]):
+            h.add("attr-name-charset")
+
+
+def _haz_content(items, h, inarg=False):
+    for it in items:
+        k = it[0]
+        if k == "x":
+            if "!!" in it[1] or "\n!" in it[1]:
+                h.add("header-token-in-argument")
+            if "\n----" in it[1]:
+                h.add("rule-line-in-argument")
+        elif k == "T":
+            for a in it[2]:
+                _haz_content(a[2] if a[0] == "n" else a[1], h, True)
+        elif k == "P":
+            for a in it[2]:
+                _haz_content(a, h, True)
+        elif k in ("A", "L"):
+            for a in it[1]:
+                _haz_content(a, h, True)
+        elif k == "U":
+            if it[1][-1:] in ".,!?":
+                h.add("url-ends-in-punct")
+            if not it[1].startswith(("http://", "https://", "//")):
+                h.add("url-scheme")
+            if it[2] is not None:
+                if any(x[0] == "H" for x in it[2]):
+                    h.add("html-in-extlink-label")
+                _haz_content(it[2], h, inarg)
+        elif k in ("B", "I"):
+            _haz_content(it[1], h, inarg)
+        elif k == "H":
+            _haz_attrs(it[2], h, "tag")
+            if len(it) > 5 and it[5] != " " and it[2]:
+                h.add("tag-white-space")
+            _haz_content(it[3] or [], h, inarg)
+
+
+def hazards(sp):
+    """input classes that are known to be delicate (each is generated at a low rate and tagged): the
+    minimiser may remove them from a witness but never introduce one the witness did not have, so a
+    disagreement is never 'simplified' into a different, already known one"""
+    h = set()
+    if sp["kind"] != "table":
+        _haz_content(sp["items"], h)
+        return h
+    _haz_attrs(sp["tattr"], h, "table")
+    _haz_attrs(sp.get("capattr") or [], h, "table")
+    if sp["cap"]:
+        _haz_content(sp["cap"], h)
+    for r in sp["rows"]:
+        _haz_attrs(r["attr"], h, "table")
+        for c in r["cells"]:
+            _haz_attrs(c["attr"], h, "table")
+            if not c["content"]:
+                h.add("empty-cell")
+            _haz_content(c["content"], h)
+    return h
+
+
+def minimise(run, sp, rule, budget=900):
+    """greedy descent over the spec: take the first alternative that is inside the generator's domain, has
+    no delicate input class the original lacks, and still disagrees with its own expected structure"""
+    # every alternative is a step towards a canonical form (drop / replace by the canonical atom / move to
+    # the canonical place), no alternative undoes another one, so the descent terminates; the budget is a
+    # safety net
     used = 0
     cur = sp
+    haz = hazards(sp)
     progress = True
     while progress and used < budget:
         progress = False
@@ -417,10 +665,11 @@ def minimise(run, sp, rule, budget=600):
         for cand in gen:
             if used >= budget:
                 break
+            if not valid(cand) or not hazards(cand) <= haz:
+                continue
             used += 1
             d = run.check(cand, count=False)
-            # same clause, or the same innermost clause with an enclosing construct removed
-            if d is not None and (d[0] == rule or rule.endswith("/" + d[0])):
+            if d is not None:
                 cur, rule = cand, d[0]
                 progress = True
                 break
@@ -435,8 +684,15 @@ def text_class(s):
         return {"empty"}
     if "=" in s:
         t.add("has=")
-    if "!" in s:
+    if "!!" in s:
+        t.add("has!!")
+    elif "\n!" in s:
+        t.add("line-start!")
+    elif "!" in s:
         t.add("has!")
+    if "\n----" in s:
+        t.add("rule-line")
+        s = s.replace("\n----\n", " ")
     if ":" in s:
         t.add("has:")
     if s != s.strip():
@@ -495,6 +751,14 @@ def content_tags(items, prefix=""):
                 if not c:
                     t.add(prefix + "T.empty-arg")
                 t |= content_tags(c, prefix + "T>")
+        elif k == "P":
+            t.add(prefix + "P")
+            if it[1] != "lc":
+                t.add(prefix + "P.name:" + it[1])
+            for a in it[2]:
+                if not a:
+                    t.add(prefix + "P.empty-arg")
+                t |= content_tags(a, prefix + "P>")
         elif k in ("A", "L"):
             t.add(prefix + k)
             if len(it[1]) > 1:
@@ -511,6 +775,8 @@ def content_tags(items, prefix=""):
                     t.add(prefix + "U.url-ends-in-punct")
                 elif u.startswith("//"):
                     t.add(prefix + "U.protocol-relative")
+                elif not u.startswith(("http://", "https://")):
+                    t.add(prefix + "U.scheme-not-http(s)")
                 else:
                     t.add(prefix + "U.url-other")
             if it[2] is None:
@@ -526,6 +792,8 @@ def content_tags(items, prefix=""):
             t.add(prefix + name)
             if tag != tag.lower():
                 t.add(prefix + "H.tag-uppercase")
+            if len(it) > 5 and it[5] != " ":
+                t.add(prefix + "H.attr-sep=" + {"\n": "newline", "\t": "tab"}.get(it[5], "blanks+newline" if "\n" in it[5] else "blanks"))
             if len(it) > 4 and it[4]:
                 t.add(prefix + ("H.blank-in-end-tag" if it[3] is not None else "H.void-slash"))
             if it[3] is None:
@@ -579,11 +847,69 @@ def signature(sp, rule):
 
 # ---------------------------------------------------------------- evaluation of one case
 
+def classes(obs, items, where, inarg=False):
+    """input classes written inside content (recursively): where = "cell" | "top" """
+    for it in items:
+        k = it[0]
+        if k == "x":
+            if inarg:
+                s = it[1]
+                if "!!" in s:
+                    obs.count("cls.%s.call-arg-has-!!" % where)
+                if "\n!" in s:
+                    obs.count("cls.%s.call-arg-line-start-!" % where)
+                if "\n----" in s:
+                    obs.count("cls.%s.call-arg-rule-line" % where)
+        elif k == "T":
+            classes(obs, it[1], where, inarg)
+            for a in it[2]:
+                classes(obs, a[2] if a[0] == "n" else a[1], where, True)
+        elif k == "P":
+            obs.count("cls.%s.parser-function-call" % where)
+            obs.add("parser_functions", it[1])
+            for a in it[2]:
+                classes(obs, a, where, True)
+        elif k in ("A", "L"):
+            if k == "A":
+                obs.count("cls.%s.template-argument-ref" % where)
+            for i, a in enumerate(it[1]):
+                classes(obs, a, where, True)
+        elif k == "U":
+            obs.add("url_schemes", it[1].split("//")[0] + "//" if "//" in it[1] else it[1].split(":")[0] + ":")
+            if it[2] is not None:
+                if any(x[0] == "H" for x in it[2]):
+                    obs.count("cls.extlink-label-with-html")
+                if any(x[0] == "T" for x in it[2]):
+                    obs.count("cls.extlink-label-with-template")
+                classes(obs, it[2], where, inarg)
+        elif k in ("B", "I"):
+            classes(obs, it[1], where, inarg)
+        elif k == "H":
+            if len(it) > 5 and it[5] != " " and it[2]:
+                obs.count("cls.tag-attr-sep." + ("newline" if "\n" in it[5] else "tab" if "\t" in it[5] else "blanks"))
+            classes(obs, it[3] or [], where, inarg)
+
+
+def sq_empty(obs, at, where):
+    for a in at:
+        if a[2] == "'" and a[1] == "":
+            obs.count("cls.attr-empty-single-quoted." + where)
+
+
 def features(obs, sp):
     """workload counters: what was written"""
     if sp["kind"] == "table":
         rows = sp["rows"]
         obs.count("gen.table")
+        sq_empty(obs, sp["tattr"], "table")
+        sq_empty(obs, sp.get("capattr") or [], "caption")
+        if sp["cap"]:
+            classes(obs, sp["cap"], "cell")
+        for r in rows:
+            sq_empty(obs, r["attr"], "row")
+            for c in r["cells"]:
+                sq_empty(obs, c["attr"], "cell")
+                classes(obs, c["content"], "cell")
         obs.add("shapes", "%dx%d" % (len(rows), len(rows[0]["cells"])))
         lay = set()
         for r in rows:
@@ -624,7 +950,8 @@ def features(obs, sp):
         return len(rows) * len(rows[0]["cells"]) >= 2 or bool(pos - {"none"})
     f = sp.get("focus", "inline")
     obs.count("gen." + f)
-    nt = False
+    classes(obs, sp["items"], "top")
+    nt = f in ("parserfn", "targ")
     if f == "html":
         obs.add("html_tags_nested" if sp.get("parent") else "html_tags_top", sp["tag"])
         obs.add("html_nattrs", sp["nattrs"])
@@ -712,6 +1039,50 @@ def sweep_cases(tier, seed):
     for focus, seq in G.call_sweep(3 if tier == "quick" else 5):
         yield idx, "S4", (lambda rng, focus=focus, seq=seq: G.call_from_seq(rng, focus, seq))
         idx += 1
+    # S5: every declared external-link protocol x {bare, label, label with markup} x {top level, table cell}
+    for sch in G.url_starts():
+        for lab in ("none", "text", "rich"):
+            for place in ("top", "cell"):
+                for _ in range(reps):
+                    yield idx, "S5", (lambda rng, sch=sch, lab=lab, place=place: scheme_case(rng, sch, lab, place))
+                    idx += 1
+    # S6: every paired tag x white space written between tag name / attributes (newline, tab)
+    for tag in G.paired_tags():
+        for na in (1, 2, 3):
+            for q in ('"', "'", ""):
+                for ws in ("\n", "\t"):
+                    for _ in range(reps):
+                        yield idx, "S6", (lambda rng, tag=tag, na=na, q=q, ws=ws: ws_case(rng, tag, na, q, ws))
+                        idx += 1
+
+
+def scheme_case(rng, sch, lab, place):
+    it = G.extlink(rng, 1, scheme=sch)
+    if lab == "none":
+        it[2] = None
+    elif lab == "text":
+        it[2] = [["x", G.word(rng) + " " + G.word(rng)]]
+    else:
+        mid = G.item(rng, 0, allow=("I", "B", "H", "T"))
+        if mid[0] == "H" and len(mid) > 5 and "\n" in mid[5]:
+            mid[5] = "\t"
+        it[2] = [["x", G.word(rng) + " "], mid, ["x", " " + G.word(rng)]]
+    if place == "top":
+        return {"kind": "inline", "focus": "extlink", "items": [["x", G.word(rng) + " "], it, ["x", " " + G.word(rng)]]}
+    sp = pair_case(rng, "text", "text", rng.choice(["line-d", "dbl-d", "dbl-h!!"]), 0)
+    sp["rows"][0]["cells"][rng.randrange(3)]["content"] = [it]
+    del sp["pair"]
+    return sp
+
+
+def ws_case(rng, tag, na, q, ws):
+    sp = G.html_case(rng, tag, na, quote=q, content_cls="text")
+    for it in sp["items"]:
+        if it[0] == "H":
+            while len(it) < 5:
+                it.append("")
+            it[5:] = [ws]
+    return sp
 
 
 def pair_case(rng, a, b, lay, at):
@@ -744,8 +1115,10 @@ def random_case(rng, tier):
         tag = rng.choice(tags)
         par = rng.choice([None] + G.parents_of(tag))
         return "R.html", G.html_case(rng, tag, rng.randint(0, 3), parent=par, odd=rng.random() < 0.04)
-    if r < 0.8:
+    if r < 0.77:
         return "R.template", G.call_case(rng, "template", depth=rng.randint(0, 2))
+    if r < 0.8:
+        return "R.parserfn", G.call_case(rng, rng.choice(["parserfn", "parserfn", "targ"]), depth=rng.randint(0, 2))
     if r < 0.9:
         return "R.link", G.call_case(rng, "link", depth=rng.randint(0, 2))
     return "R.extlink", G.call_case(rng, "extlink", punct=rng.random() < 0.06)
